@@ -104,10 +104,16 @@ EvH ==
          o == Outcome(cfg, tgt, inflight, tq, cur, hp)
          forwarded == x.fwd # "none"
          flatlike == cfg.flat \/ cfg.mode = "any"
+         exact == cfg.mode = "any" /\ AnyExact
          d == UNION {
                 When(~known, "h.unexpected"),
                 When(known /\ (o.skip = forwarded), "h.skip"),
-                When(known /\ flatlike /\ x.chk # (IF o.skip THEN "true" ELSE "false"), "h.check"),
+                \* what the handler read from the target: flat variants and the former
+                \* BindAny guard log the boolean they got (Is / Not1); the BindAny guard
+                \* of 4d48d95 reads the target's active set ("read")
+                When(known /\ flatlike /\ ~exact /\ x.chk # (IF o.skip THEN "true" ELSE "false"), "h.check"),
+                When(known /\ exact /\ x.chk # "read", "h.check"),
+                When(known /\ exact /\ x.chk = "read" /\ det /\ SetOf(x.read) # tgt, "h.read"),
                 When(known /\ ~flatlike /\ x.chk # "none", "h.check"),
                 When(known /\ forwarded /\ (o.inl # (x.fwd = "inline")), "h.inline"),
                 When(known /\ forwarded /\ (x.op # hp.op \/ SetOf(x.sts) # hp.sts), "h.mutation"),
